@@ -186,7 +186,11 @@ func (s authStateAwaitingDHKey) receiveDHKeyMessage(c *Conversation, msg []byte)
 	c.ake.keys.setTheirCurrentDHPubKey(c.ake.theirPublicValue)
 	c.ake.keys.setOurCurrentDHKeys(c.ake.secretExponent, c.ake.ourPublicValue)
 
-	c.sentRevealSig = true
+	// which half of the SSID is highlighted belongs to the session: while one
+	// is running it only changes when the new exchange has finished
+	if c.msgState != encrypted {
+		c.sentRevealSig = true
+	}
 
 	return authStateAwaitingSig{revealSigMsg: revealSigMsg}, revealSigMsg, nil
 }
@@ -263,6 +267,8 @@ func (s authStateAwaitingSig) receiveSigMessage(c *Conversation, msg []byte) (au
 
 	//gy was stored when we receive DH-Key
 	c.ake.keys.setTheirCurrentDHPubKey(c.ake.theirPublicValue)
+
+	c.sentRevealSig = true
 
 	return authStateNone{}, nil, c.akeHasFinished()
 }
